@@ -1,6 +1,6 @@
 (* Non-vacuity: the hypotheses of the theorems are met by concrete,
    non-trivial instances, and the conclusions are visibly non-trivial. *)
-From V Require Import Common.Base C05.Syntax C05.Sem C05.Lower C05.Frame C05.LowerProofs C05.SimLogic C05.Steps C05.Witness.
+From V Require Import Common.Base C05.Syntax C05.Sem C05.Lower C05.Frame C05.LowerProofs C05.SimLogic C05.Steps C05.Compose C05.Visit C05.Witness.
 
 (* f() ?? g() : the left operand is captured in a temporary *)
 Definition ex_a := ECall (EId 3) [] OcNone.
@@ -87,3 +87,18 @@ Example ex_index_uncaptured :
 Proof. reflexivity. Qed.
 Example ex_cap_ok_this : cap_ok Z wit_world EThis /\ cap_ok Z wit_world ex_a.
 Proof. split; [right; exact I | left; reflexivity]. Qed.
+
+(* whole-visitor theorem: v3[g(1)] ||= (f() ?? 2 ** 3), everything lowered *)
+Definition ex_big := EOpAsg AOr (EIndex (EId 3) ex_b OcNone) (EBin BNullish ex_a (EBin BPow (ENum 2) (ENum 3))).
+Example ex_src : src all_features (fun x => x = 3) ex_big.
+Proof. cbn. repeat split; auto; try (intros; contradiction); unfold all_const; cbn; intros; intuition congruence. Qed.
+Example ex_C_const : forall x, x = 3 -> const_var Z wit_world x.
+Proof. intros x ->. exact ex_const_var. Qed.
+Example ex_world_arith : binop_nonnull Z wit_world /\ del_nonnull Z wit_world.
+Proof. split; intros; intro; intros; cbn; reflexivity. Qed.
+Example ex_big_lowered :
+  lower all_features ex_big
+  = EBin BOr (EIndex (EId 3) (EAssign (ETmp 1) ex_b) OcNone)
+             (EAssign (EIndex (EId 3) (ETmp 1) OcNone)
+                      (EIf (EEqNull true (EAssign (ETmp 0) ex_a)) (ETmp 0) (EPowCall (ENum 2) (ENum 3)))).
+Proof. reflexivity. Qed.
